@@ -23,6 +23,18 @@ CHECKS = {
             "The reference dictionary is a pinned copy (no-drift only); the reference codec is trusted after passing the "
             "repository's fixture vectors and its own round trip.",
             "5/C02"),
+    "C03": ("exploration",
+            "model-based generated conversation scripts over 2-4 real client stacks against a WhatsApp server double that "
+            "lets the script reorder, duplicate and corrupt queued stanzas; conversation model as oracle",
+            "Each account is the real stack from the network layer up (coder, the three encryption layers, all protocol layers, an "
+            "acknowledging application) with its own SQLite profile; the server double is a key directory, group fan-out and "
+            "receipt router whose delivery order and faults are script operations. After draining, every application must hold "
+            "exactly the messages of the model (once, right sender/group, equal content), senders hold the delivery receipts, no "
+            "outgoing frame contains a plaintext marker, every outgoing message stanza has only enc children, corrupted stanzas "
+            "led to a retry receipt.",
+            "Server double restricted to what the client code consumes; python-axolotl's padding defect (E3) corrected in the "
+            "harness and recorded as external known finding; expiring waits are inconclusive.",
+            "5/C03"),
     "C04": ("exploration",
             "generated login variants, chunkings, coalesced frames, cut-off histories and schedules against a Noise responder "
             "double under the deterministic scheduler",
